@@ -51,7 +51,7 @@ CLAIMED = {
              "every derived from-buffer constructor skips exactly the bytes its base constructors consumed (20 chains) and "
              "the members a constructor chain reads are, in order and width, those write_serialization writes, and a member "
              "read under a condition is written whenever that condition holds (51 classes); (R4) switches on wire-derived selectors on the serialisation path cover every value (found and "
-             "fixed LLC's I-frame format). (R5) the accept set of are_extensions_allowed(), evaluated over all 256 type values, stays within the RFC 4884 message types (ICMP 3/11/12, ICMPv6 1/3), so the derived length byte never overwrites another field; (R6) RadioTap::trailer_size() is non-zero exactly when the parser strips an FCS (FLAGS present and FCS bit), on its full truth table. (R3 also compares, by member name and multiplicity, what the constructor chain reads with what the serialiser writes: nothing read is never written, nothing written is never read, apart from 11 tabled members filled by other means.) (R7) the ICMP/ICMPv6 extension parser never looks for the extension structure below offset 128, where the serialiser puts it; C02.R1 (size balance of every serialiser) is re-run under C03 because an overrunning header corrupts the next layer's bytes.",
+             "fixed LLC's I-frame format). (R5) the accept set of are_extensions_allowed(), evaluated over all 256 type values, stays within the RFC 4884 message types (ICMP 3/11/12, ICMPv6 1/3), so the derived length byte never overwrites another field; (R6) RadioTap::trailer_size() is non-zero exactly when the parser strips an FCS (FLAGS present and FCS bit), on its full truth table. (R3 also compares, by member name and multiplicity, what the constructor chain reads with what the serialiser writes: nothing read is never written, nothing written is never read, apart from 11 tabled members filled by other means.) (R7) the ICMP/ICMPv6 extension parser never looks for the extension structure below offset 128, where the serialiser puts it; C02.R1 (size balance of every serialiser) is re-run under C03 because an overrunning header corrupts the next layer's bytes. (R8) for every enumerator of a selector whose setter fixes a length member that header_size() counts (LLC: Format -> control_field_length_), write_serialization writes exactly that many selector-dependent bytes - both sides executed per enumerator, so a switch, an if-chain or a missing arm are judged alike. All rules read through named locals, extracted helpers and early-return forms (DESIGN 8.9).",
         note="NOT decided: value-dependent losses (ICMP extension recognition by checksum, DHCP END/PAD growth, option "
              "contents and their order beyond the raw option list), byte-for-byte idempotence, variable-length tails after "
              "the first option loop of a constructor.",
@@ -220,7 +220,7 @@ CLAIMED = {
              "instantiations) is proved in bounds from the guards that dominate it. One genuine defect found this way "
              "(RadioTap::matches_response) was repaired with a fix: commit. Of clauses 1-2 only the IPv4 address predicate is "
              "decided (R2): its truth table over the four address comparisons accepts mirrored addresses and never accepts a "
-             "packet not addressed to us or, for unicast requests, not sent by the requested host. (R4) ICMP / ICMPv6 query matching evaluated exhaustively over (request type, reply type) in the enum values, every constant compared with and an outside value, with the remaining equalities as boolean inputs: echo, timestamp and address-mask requests accept their own reply type iff identifier and sequence number are equal; no other type combination is accepted unless the enumerator names form a REQUEST/REPLY (SOLICIT/ADVERT) pair. (R5) TCP, UDP and 802.1Q: the predicate guarding the inner match, as a bit-level expression over our header bits and the reply's bytes (E-BITS), is identically true for the mirrored header (ports swapped / same VLAN id, as located by the public getters) and identically false when any single one of those bits differs. (R6) the size test of every matches_response accepts a reply that is exactly the header structure it overlays (no `<=` off-by-one). (R7) no matches_response reads a field that only serialisation derives (next-protocol tags, lengths, checksums), except a tag read under `no inner layer`.",
+             "packet not addressed to us or, for unicast requests, not sent by the requested host. (R4) ICMP / ICMPv6 query matching evaluated exhaustively over (request type, reply type) in the enum values, every constant compared with and an outside value, with the remaining equalities as boolean inputs: echo, timestamp and address-mask requests accept their own reply type iff identifier and sequence number are equal; no other type combination is accepted unless the enumerator names form a REQUEST/REPLY (SOLICIT/ADVERT) pair. (R5) TCP, UDP and 802.1Q: the predicate guarding the inner match, as a bit-level expression over our header bits and the reply's bytes (E-BITS), is identically true for the mirrored header (ports swapped / same VLAN id, as located by the public getters) and identically false when any single one of those bits differs. (R6) the size test of every matches_response accepts a reply that is exactly the header structure it overlays (no `<=` off-by-one). (R7) no matches_response reads a field that only serialisation derives (next-protocol tags, lengths, checksums), except a tag read under `no inner layer`. (R8) IP: outside the address test a packet is accepted only under EQUALITY of our header with the header an ICMP error quotes, read at sizeof(ip_header) + sizeof(icmp_header) (found and fixed: memcmp without == 0 accepted every unrelated ICMP error). R5 executes the whole predicate on every path (bit provenance with path enumeration) and so does not depend on how the test is spelled.",
         note="The rest of clauses 1-2 (identifiers, ports, sequence numbers, other layers' predicates) is value-level and NOT decided. Assumes "
              "no overflow in additions of 32-bit lengths; little-endian arm only.",
     ),
